@@ -2,10 +2,12 @@
     buffering, data packets, finalisation) with src/cv_section.rs (write) and
     src/packet.rs (write), over the paged writer model.  Prototype name rules,
     bounds and limits are modelled elsewhere.  No proofs here. *)
-From E57 Require Import Base.Prelude Model.PagedWriter Model.BsWrite Model.Record.
-Local Open Scope monad_scope.
+From E57 Require Import Base.Prelude Model.PagedWriter Model.BsWrite Model.Record Model.Prog.
+Local Open Scope wprog_scope.
 
-Definition wr (data : list N) : M pw unit := relabel EWrite (pw_write_all data).
+Definition wr (data : list N) : wprog unit := w_write data.
+Definition wfail {A} (k : err_kind) : wprog A := WErr k.
+Definition wret {A} (a : A) : wprog A := WRet a.
 
 Definition cv_header_bytes (section_length data_offset index_offset : N) : list N :=
   [1; 0; 0; 0; 0; 0; 0; 0] ++ le_bytes 8 section_length ++ le_bytes 8 data_offset ++ le_bytes 8 index_offset.
@@ -39,12 +41,12 @@ Record pcw := mkPcw {
   w_streams : list bsw
 }.
 
-Definition pcw_new (proto : list dtype) : M pw pcw :=
-  mpp <- lift_res (get_max_packet_points proto) ;;
-  so <- pw_physical_position ;;
+Definition pcw_new (proto : list dtype) : wprog pcw :=
+  mpp <- wlift (get_max_packet_points proto) ;;
+  so <- w_position ;;
   wr (cv_header_bytes 32 0 0) ;;;
-  doff <- pw_physical_position ;;
-  ret (mkPcw proto so 32 doff 0 [] mpp (map (fun _ => bsw_new) proto)).
+  doff <- w_position ;;
+  wret (mkPcw proto so 32 doff 0 [] mpp (map (fun _ => bsw_new) proto)).
 
 (** one point into the byte streams: [p.get(i)] and [data_type.write] per prototype entry *)
 Fixpoint write_point (proto : list dtype) (p : list rvalue) (streams : list bsw) : res (list bsw) :=
@@ -104,33 +106,33 @@ Fixpoint drain_streams (last : bool) (streams : list bsw) : res (list bsw * list
       end
   end.
 
-Fixpoint wr_all (chunks : list (list N)) : M pw unit :=
+Fixpoint wr_all (chunks : list (list N)) : wprog unit :=
   match chunks with
-  | [] => ret tt
+  | [] => wret tt
   | c :: r => wr c ;;; wr_all r
   end.
 
-Definition write_buffer_to_disk (last_flush : bool) (w : pcw) : M pw pcw :=
+Definition write_buffer_to_disk (last_flush : bool) (w : pcw) : wprog pcw :=
   let packet_points := N.min (w_max_ppp w) (len (w_buffer w)) in
-  '(buffer, streams) <- lift_res (write_points (N.to_nat packet_points) (w_proto w) (w_buffer w) (w_streams w)) ;;
-  sizes <- lift_res (stream_sizes last_flush streams) ;;
+  '(buffer, streams) <- wlift (write_points (N.to_nat packet_points) (w_proto w) (w_buffer w) (w_streams w)) ;;
+  sizes <- wlift (stream_sizes last_flush streams) ;;
   let sum := fold_left N.add sizes 0 in
   let proto_len := len (w_proto w) in
   w1 <- (if 0 <? sum then
            let pl0 := DATA_HEADER_SIZE + proto_len * 2 + sum in
            let pl := if pl0 mod 4 =? 0 then pl0 else pl0 + (4 - pl0 mod 4) in
-           if U16_MAX <? pl then fail EInternal else
+           if U16_MAX <? pl then wfail EInternal else
            wr (data_header_bytes pl proto_len) ;;;
            wr_all (map (fun sz => le_bytes 2 (sz mod 65536)) sizes) ;;;
-           '(streams', datas) <- lift_res (drain_streams last_flush streams) ;;
+           '(streams', datas) <- wlift (drain_streams last_flush streams) ;;
            wr_all datas ;;;
-           ret (mkPcw (w_proto w) (w_section_offset w) (w_section_length w + pl) (w_data_offset w)
+           wret (mkPcw (w_proto w) (w_section_offset w) (w_section_length w + pl) (w_data_offset w)
                       (w_point_count w) buffer (w_max_ppp w) streams')
          else
-           ret (mkPcw (w_proto w) (w_section_offset w) (w_section_length w) (w_data_offset w)
+           wret (mkPcw (w_proto w) (w_section_offset w) (w_section_length w) (w_data_offset w)
                       (w_point_count w) buffer (w_max_ppp w) streams)) ;;
-  pw_align ;;;
-  ret w1.
+  w_align ;;;
+  wret w1.
 
 (** The checks of [add_point]: arity, then type and integer range of every value. *)
 Fixpoint values_ok (proto : list dtype) (vs : list rvalue) : bool :=
@@ -145,29 +147,29 @@ Fixpoint values_ok (proto : list dtype) (vs : list rvalue) : bool :=
   | _, _ => false
   end.
 
-Definition pcw_add_point (values : list rvalue) (w : pcw) : M pw pcw :=
-  if negb (values_ok (w_proto w) values) then fail EInvalid else
+Definition pcw_add_point (values : list rvalue) (w : pcw) : wprog pcw :=
+  if negb (values_ok (w_proto w) values) then wfail EInvalid else
   let w1 := mkPcw (w_proto w) (w_section_offset w) (w_section_length w) (w_data_offset w)
                   (w_point_count w + 1) (w_buffer w ++ [values]) (w_max_ppp w) (w_streams w) in
-  if w_max_ppp w1 <=? len (w_buffer w1) then write_buffer_to_disk false w1 else ret w1.
+  if w_max_ppp w1 <=? len (w_buffer w1) then write_buffer_to_disk false w1 else wret w1.
 
 (** the [while !self.buffer.is_empty()] loop of [finalize]; with capacity >= 1
     every round removes a point, so fuel [|buffer| + 1] is never exhausted *)
-Fixpoint drain_buffer (fuel : nat) (w : pcw) : M pw pcw :=
+Fixpoint drain_buffer (fuel : nat) (w : pcw) : wprog pcw :=
   match fuel with
-  | O => fail EInternal
+  | O => wfail EInternal
   | S f => match w_buffer w with
-           | [] => ret w
+           | [] => wret w
            | _ => w' <- write_buffer_to_disk false w ;; drain_buffer f w'
            end
   end.
 
 (** [finalize], binary part: returns (file_offset, record count) for the XML. *)
-Definition pcw_finalize (w : pcw) : M pw (pcw * N * N) :=
+Definition pcw_finalize (w : pcw) : wprog (pcw * N * N) :=
   w1 <- drain_buffer (S (length (w_buffer w))) w ;;
   w2 <- write_buffer_to_disk true w1 ;;
-  end_offset <- relabel EWrite pw_physical_position ;;
-  relabel EWrite (pw_physical_seek (w_section_offset w2)) ;;;
+  end_offset <- wrelabel EWrite w_position ;;
+  wrelabel EWrite (w_seek (w_section_offset w2)) ;;;
   wr (cv_header_bytes (w_section_length w2) (w_data_offset w2) 0) ;;;
-  relabel EWrite (pw_physical_seek end_offset) ;;;
-  ret (w2, w_section_offset w2, w_point_count w2).
+  wrelabel EWrite (w_seek end_offset) ;;;
+  wret (w2, w_section_offset w2, w_point_count w2).
